@@ -128,8 +128,12 @@ static void hnd_get(coap_resource_t *r, coap_session_t *s, const coap_pdu_t *req
 static int server_up(const char *wcfg, int b12, int with_net) {
   char extra[128];
   coap_oscore_conf_t *conf;
-  snprintf(extra, sizeof(extra), "recipient_id,hex,\"03\"\nreplay_window,integer,%s\n"
-           "rfc8613_b_1_2,bool,%s\n", wcfg, b12 ? "true" : "false");
+  /* Wcfg "-" / b12 2: the line is left out of the configuration (library defaults) */
+  snprintf(extra, sizeof(extra), "recipient_id,hex,\"03\"\n%s%s%s%s%s%s",
+           strcmp(wcfg, "-") ? "replay_window,integer," : "", strcmp(wcfg, "-") ? wcfg : "",
+           strcmp(wcfg, "-") ? "\n" : "",
+           b12 == 2 ? "" : "rfc8613_b_1_2,bool,", b12 == 2 ? "" : (b12 ? "true" : "false"),
+           b12 == 2 ? "" : "\n");
   sctx = coap_new_context(NULL);
   if (!sctx) return 0;
   conf = make_conf(SECRET_A, "01", "02", extra, NULL, NULL, 0);
